@@ -145,19 +145,6 @@ impl GraphicsState<'_> {
         self.update_projection_state();
     }
 
-    /// Resets the retained portion of the graphics state to default
-    /// values while saving the user instance settings.
-    pub fn reset_retained(&mut self) {
-        let scale = self.scale;
-        let ppem = self.ppem;
-        let mode = self.target;
-        self.retained = RetainedGraphicsState {
-            scale,
-            ppem,
-            target: mode,
-            ..Default::default()
-        }
-    }
 }
 
 impl Default for GraphicsState<'_> {
@@ -271,6 +258,32 @@ impl RetainedGraphicsState {
             ppem,
             target,
             ..Default::default()
+        }
+    }
+
+    /// Returns true if glyph programs start in backward compatibility mode
+    /// according to the hinter settings and the `prep` table.
+    pub fn backward_compatibility(&self) -> bool {
+        // Instruct control bit 1 requests the default graphics state for
+        // glyph programs. FreeType loads that state in `tt_loader_init` but
+        // `TT_Hint_Glyph` then replaces it with the one saved from the
+        // control value program before running any glyph program, so those
+        // settings remain in force. The default state, with a cleared
+        // instruct control, is only seen when selecting backward
+        // compatibility mode.
+        // See <https://gitlab.freedesktop.org/freetype/freetype/-/blob/57617782464411201ce7bbc93b086c1b4d7d84a5/src/truetype/ttgload.c#L2683>
+        // and <https://gitlab.freedesktop.org/freetype/freetype/-/blob/57617782464411201ce7bbc93b086c1b4d7d84a5/src/truetype/ttgload.c#L853>
+        let instruct_control = if self.instruct_control & 2 != 0 {
+            0
+        } else {
+            self.instruct_control
+        };
+        if self.target.preserve_linear_metrics() {
+            true
+        } else if self.target.is_smooth() {
+            (instruct_control & 0x4) == 0
+        } else {
+            false
         }
     }
 }
